@@ -4,6 +4,7 @@ import (
 	"flag"
 	"fmt"
 	"strconv"
+	"strings"
 )
 
 // Command trees whose levels use spec templates with a language known by construction,
@@ -65,6 +66,13 @@ var levelTpls = []levelTpl{
 			}
 		}
 		return r
+	}},
+	{7, "[--host=<h>] X", func() []*Decl {
+		// the command declares its own -h: on the command line a bare -h is still the library's help request
+		return []*Decl{{Kind: KString, Name: "h host", Def: "localhost"}, {IsArg: true, Kind: KString, Name: "X"}}
+	}, func(t *Tape) []string {
+		x := valTok(t)
+		return [][]string{{x}, {"--host=example.org", x}, {"--host", "example.org", x}}[t.Draw(3)]
 	}},
 }
 
@@ -166,6 +174,13 @@ func genTree(t *Tape, o TreeOpts) *TreeCase {
 			}
 		}
 		c.Desc = "command at level " + strconv.Itoa(lvl)
+		if o.Fancy && lvl > 0 && t.Draw(6) == 0 {
+			c.Hidden = true // hidden from the help of its parent, otherwise a command like any other
+		}
+		if o.Fancy && t.Draw(8) == 0 {
+			pol := policies[t.Draw(3)]
+			c.PolicyLate = &pol // the host program assigns ErrorHandling after having declared the sub-commands
+		}
 		tpl := 0
 		var toks []string
 		if !o.Minimal {
@@ -212,7 +227,13 @@ func genTree(t *Tape, o TreeOpts) *TreeCase {
 					parent.Subs = append(parent.Subs, c)
 					continue
 				}
-				sib := &CmdDecl{Name: fmt.Sprintf("s%d_%d", lvl, s), Desc: "sibling",
+				sibName := fmt.Sprintf("s%d_%d", lvl, s)
+				if o.Fancy && s > pos && t.Draw(4) == 0 {
+					// a later sibling whose name is also an alias of the addressed command: the first declared wins
+					names := strings.Fields(c.Name)
+					sibName = names[len(names)-1] + " " + sibName
+				}
+				sib := &CmdDecl{Name: sibName, Desc: "sibling",
 					Before: CB{Kind: CBReturn}, Action: CB{Kind: CBReturn}, After: CB{Kind: CBReturn}}
 				if t.Draw(4) == 0 {
 					sib.Hidden = true
@@ -239,11 +260,20 @@ func genTree(t *Tape, o TreeOpts) *TreeCase {
 // application was created with rootPolicy: a command inherits its parent's policy at the moment
 // it is declared, and its own initializer may set another one.
 func effectivePolicy(tc *TreeCase, level int, rootPolicy flag.ErrorHandling) flag.ErrorHandling {
-	eff := rootPolicy
-	for i := 1; i <= level && i < len(tc.Path); i++ {
-		if tc.Path[i].Policy != nil {
-			eff = *tc.Path[i].Policy
+	inherited := rootPolicy
+	for i := 0; i < len(tc.Path); i++ {
+		own := inherited
+		if i > 0 && tc.Path[i].Policy != nil {
+			own = *tc.Path[i].Policy // set by the command's initializer before it declares its sub-commands
 		}
+		forChildren := own
+		if tc.Path[i].PolicyLate != nil {
+			own = *tc.Path[i].PolicyLate // assigned after the sub-commands were declared: they keep what they copied
+		}
+		if i == level {
+			return own
+		}
+		inherited = forChildren
 	}
-	return eff
+	return inherited
 }
